@@ -97,8 +97,9 @@ type c16Obs struct {
 	MaxFile  int64        `json:"max_file,omitempty"`
 	Default  bool         `json:"default_limits,omitempty"`
 	Big      bool         `json:"big,omitempty"` // content too large to hand to the model
-	// join
-	Path string `json:"path,omitempty"`
+	// join / download
+	Path           string `json:"path,omitempty"`
+	URLPathDecoded string `json:"url_path_decoded,omitempty"`
 	// sandbox
 	Changed  []string `json:"changed,omitempty"` // paths (relative to the sandbox root) that differ
 	LockPre  string   `json:"lock_pre,omitempty"`
